@@ -1,4 +1,4 @@
-import Mimium.Model.Occurs
+import Mimium.Model.OccursSeq
 /-!
 # `typing/unification.rs` — the WHOLE of `unify_types` / `unify_types_args`, arm by arm (C03, C04)
 
@@ -359,6 +359,12 @@ def structuralD (u : U) (σ : Store) (t1r t2r : Ty) : Out :=
     | some (σ', .error _) => some (σ', .error [.mismatch])
   | none, none => some (σ, .error [.mismatch])
 
+/-- `|m| unify_types(m, t2r).is_ok()` -/
+def okOf (u : U) (t2r : Ty) (σ : Store) (m : Ty) : Option (Store × Bool) :=
+  match u σ m t2r with
+  | none => none
+  | some (σ', r) => some (σ', isOk r)
+
 /-- `Code` and the three `Union` arms, then `structuralD` -/
 def structuralC (u : U) (σ : Store) (t1r t2r : Ty) : Out :=
   match asCode t1r, asCode t2r with
@@ -381,7 +387,7 @@ def structuralC (u : U) (σ : Store) (t1r t2r : Ty) : Out :=
     | some (σ', false) => some (σ', .error [.mismatch])
   | some us1, none =>
     -- `us1.all(|m| unify_types(m, t2r).is_ok())`
-    match allOf (fun σ m => match u σ m t2r with | none => none | some (σ', r) => some (σ', isOk r)) σ us1 with
+    match allOf (okOf u t2r) σ us1 with
     | none => none
     | some (σ', true) => some (σ', .ok .sup)
     | some (σ', false) => some (σ', .error [.mismatch])
@@ -530,6 +536,23 @@ def go (g : Nat) : Nat → Bool → Store → Ty → Ty → Out
 def unify (g f : Nat) (σ : Store) (t1 t2 : Ty) : Out := go g f false σ t1 t2
 /-- `unify_types_args(t1, t2)` -/
 def unifyArgs (g f : Nat) (σ : Store) (t1 t2 : Ty) : Out := go g f true σ t1 t2
+
+/-! ## fuel that provably suffices (`C04_unify_terminates`) -/
+
+/-- constructors of the two types and of all parents, as `occur_check` sees them -/
+def sizeSum (σ : Store) (t1 t2 : Ty) : Nat := Occurs.size (abs t1) + Occurs.size (abs t2) + Occurs.total (absS σ)
+
+/-- no store a run reaches has more entries (every new entry binds one of the ≤ `sizeSum` variables around) -/
+def maxEntries (σ : Store) (t1 t2 : Ty) : Nat := σ.length + sizeSum σ t1 t2
+
+/-- no type gets higher than this in any store a run reaches -/
+def maxHeight (σ : Store) (t1 t2 : Ty) : Nat := sizeSum σ t1 t2 + maxEntries σ t1 t2 * sizeSum σ t1 t2
+
+/-- fuel for `get_root` / `occur_check` -/
+def fuelG (σ : Store) (t1 t2 : Ty) : Nat := maxHeight σ t1 t2 + maxEntries σ t1 t2 + 1
+
+/-- fuel for the nesting of unification calls -/
+def fuelF (σ : Store) (t1 t2 : Ty) : Nat := 4 * (maxHeight σ t1 t2 * (2 * maxHeight σ t1 t2) + 2 * maxHeight σ t1 t2) + 4
 
 /-- a sequence of requests over one set of cells (what the type checker does to the store between two `substitute_type`s);
 a failed request leaves its bindings and checking goes on -/
